@@ -93,11 +93,18 @@ def run(tier, seed, replay=None):
                           "mid_newlines": rnd.choice([0, 1]), "status_case": 0, "frags": rnd.choice([[], [1, 1, 1048576], [4096], [8191, 1]]), "pause_us": 50, "offset": 0, "read_max": 4096})
         trace = sc.path("trace.ndjson")
         rc, out, err = vlib.run_vdrv(["handoff"], stdin=json.dumps({"seed": seed, "cases": cases, "trace": trace, "dir": sc.dir}), timeout=3000)
+        crashed = False
         if rc != 0:
-            raise Infra("vdrv handoff failed rc=%s: %s" % (rc, err[-2000:]))
+            crashed = True
+            where = vlib.tool_panic(err)
+            if not where:
+                raise Infra("vdrv handoff failed rc=%s: %s" % (rc, err[-2000:]))
+            # a goroutine started by the tool itself panicked (the production binary would have crashed the same way)
+            verdict.violation({"kind": "tool-crash", "where": where.split(" @ ")[-1].split(":")[0]},
+                              "the tool crashed with a Go runtime panic during a scripted hand-off: %s" % where, {"family": "handoff", "seed": seed, "stderr": err[-1500:]})
         rows = vlib.read_ndjson(trace)
         rt = vlib.tlc(sc, "HandoffTrace", "HandoffTrace.cfg", workers=1, timeout=1800)
-        if len(rows) < len(cases) and not any(x.get("hung") or x.get("out_len", 0) < x.get("want_len", 0) for x in rows):
+        if len(rows) < len(cases) and not crashed and not any(x.get("hung") or x.get("out_len", 0) < x.get("want_len", 0) for x in rows):
             raise Infra("handoff driver stopped after %d of %d cases" % (len(rows), len(cases)))
         if rt.rc != 0 or rt.depth - 1 != len(rows):
             raise Infra("TLC failed on the handoff trace (rc=%s, judged %d of %d):\n%s" % (rt.rc, rt.depth - 1, len(rows), rt.out[-2000:]))
@@ -110,7 +117,7 @@ def run(tier, seed, replay=None):
             verdict.violation({"kind": "handoff", "mode": ev["mode"], "symptom": sym},
                               "hand-off differs from what the source sent: %s" % {k: v for k, v in ev.items() if k not in ("seq",)},
                               {"family": "handoff", "case": c, "seed": seed})
-        samples = [cases[0], rows[0]]
+        samples = [cases[0], rows[0] if rows else {"note": "the driver process died before the first observation was written"}]
     rc = verdict.finish()
     cov = {"states": mstates + rt.distinct, "transitions": mtrans + rt.generated, "traces_validated_against_impl": len(rows), "samples": samples,
            "evaluations": len(rows), "distinct_nontrivial": sum(1 for c in cases if c["frags"]),
